@@ -641,7 +641,9 @@ class BaseConnector:
         """Set Proxy-Authorization header for non-SSL proxy requests and builds the proxy request for SSL proxy requests."""
         url = req.proxy
         assert url is not None
-        headers = req.proxy_headers or CIMultiDict[str]()
+        # Work on a copy: req.proxy_headers is shared by every hop of a request
+        # and is hashed into the connection key, it must stay as the caller set it.
+        headers = CIMultiDict[str](req.proxy_headers or ())
         headers[hdrs.HOST] = req.headers[hdrs.HOST]
         proxy_req = ClientRequestBase(
             hdrs.METH_GET,
